@@ -295,7 +295,12 @@ async fn handle_udp_relay_header(
             warn!("Fragmented UDP packets are not implemented");
             Ok(None)
         }
-        Err(e) => Err(Error::Socks(e)),
+        Err(e) => {
+            // RFC 1928: the relay silently drops the datagrams it cannot or will not relay.
+            // Anybody can send to this port; one bad datagram must not end the association.
+            warn!("Ignoring an invalid UDP relay datagram from {addr}: {e}");
+            Ok(None)
+        }
         Ok((dst, port, buf)) => {
             trace!("Parsed packet: dst {dst:?} port {port}");
             Ok(Some((dst, port, buf, addr.ip(), addr.port())))
